@@ -33,6 +33,7 @@ registry! {
     "C24" => c24,
     "C07" => c07,
     "C08" => c08,
+    "C09" => c09,
     "C10" => c10,
     "C11" => c11,
     "C12" => c12,
